@@ -37,7 +37,7 @@ LAW_BATCHES = 4
 
 
 def plan(tier):
-    return [("walk", 3500 if tier == "quick" else 100000), ("law", LAW_CFGS[tier] * LAW_BATCHES)]
+    return [("walk", 3500 if tier == "quick" else 40000), ("law", LAW_CFGS[tier] * LAW_BATCHES)]
 
 
 # implementation-agnostic back-up of the walks: seeded samples of the whole call
